@@ -21,8 +21,9 @@
    /custom-codec columns, two for the struct column), each field mapped onto Z
    by the harness with the Go zero value at 0.
 
-   The two confirmed defects of codec.go are kept; each proposed fix is one
-   boolean of [cfg] ([code_cfg] = what /repo does now). *)
+   Three defects of codec.go were repaired in /repo; each repair is one boolean of
+   [cfg].  [code_cfg] = what /repo does now (all three repairs in place);
+   [defective_cfg] = the code before the repairs, kept for the refutation witnesses. *)
 From Coq Require Import List ZArith NArith Bool.
 Import ListNotations.
 Require Export BS.C07.Crc.
@@ -60,15 +61,18 @@ Inductive err :=
 | EMalformed    (* any other gob error *)
 | EIntegrity    (* errors.Integrity: checksum mismatch *)
 | ENoCodec      (* "column encoded with custom codec but no codec available on receipt" *)
-| EBadLen       (* only with fix_len: the error replacing the panic *)
+| EBadLen       (* errors.Integrity "invalid batch length" (with fix_len; the old code panicked) *)
 | EUnknown.     (* correspondence only: ran into DStop *)
 
 Record cfg := mkCfg {
-  fix_len : bool;   (* proposed fix 1: a negative batch length is an error, not a panic *)
-  fix_eof : bool    (* proposed fix 2: io.EOF means end of stream only before the first byte of a batch *)
+  fix_len : bool;     (* repair 1: a negative batch length is an error, not a panic *)
+  fix_eof : bool;     (* repair 2: io.EOF means end of stream only before the first byte of a batch *)
+  fix_collen : bool   (* repair 3: a gob column whose element count is not the batch length is an
+                         integrity error (the old code went on, and panicked "gob reallocated a
+                         slice" when the count exceeded the capacity - capacity is not modelled) *)
 }.
-Definition code_cfg : cfg := mkCfg false false.   (* /repo as it is *)
-Definition fixed_cfg : cfg := mkCfg true true.
+Definition code_cfg : cfg := mkCfg true true true.           (* /repo as it is *)
+Definition defective_cfg : cfg := mkCfg false false false.   (* /repo before the three repairs *)
 
 (* ------------------------------------------------------------------ frames *)
 Definition flen (f : frame) : nat := match f with [] => 0%nat | c :: _ => length c end.
@@ -246,9 +250,12 @@ Definition dec_col (r : rstate) (k : kind) (view : list (list Z)) : dcres :=
         end
       else
         match rd_tok r1 with                              (* d.dec.DecodeValue(v) *)
-        | TokOk (TCol data) r2 => DcOk (gob_into k view data) r2
+        | TokOk (TCol data) r2 =>
+            (* pHdr.Data != sh.Data || pHdr.Len != sh.Len: gob resized or reallocated the slice *)
+            if fix_collen cf && negb (Nat.eqb (length data) (length view)) then DcErr EIntegrity
+            else DcOk (gob_into k view data) r2
         | TokOk _ _ => DcErr EMalformed
-        | TokIoEOF =>                                     (* codec.go:215-217: io.EOF -> EOF *)
+        | TokIoEOF =>                                     (* decode: io.EOF -> io.ErrUnexpectedEOF (was: -> EOF) *)
             DcErr (if fix_eof cf then EUnexpected else EEOF)
         | t => DcErr (raw_err t)
         end
@@ -317,10 +324,10 @@ Definition read (sch : list kind) (r : rstate) (dest : frame) : rres * rstate :=
         let r0 := mkR (rinp r) (rst r) (rsess r) 0 (rscratch r) (rbuf r) (rerr r) in   (* d.crc.Reset() *)
         match rd_tok r0 with
         | TokOk (TLen n) r1 =>
-            if Z.leb n (Z.of_nat (flen dest)) then
-              if Z.ltb n 0 then
-                if fix_len cf then (RErr EBadLen, set_err r1 EBadLen)
-                else (RPanic, r1)                           (* f.Slice(0, n): slice index out of bounds *)
+            if fix_len cf && Z.ltb n 0 then                 (* if n < 0 { d.err = Integrity "invalid batch length" } *)
+              (RErr EBadLen, set_err r1 EBadLen)
+            else if Z.leb n (Z.of_nat (flen dest)) then
+              if Z.ltb n 0 then (RPanic, r1)                (* old code: f.Slice(0, n): slice index out of bounds *)
               else
                 let n' := Z.to_nat n in
                 match decode r1 sch (ftake n' dest) with    (* decode(f.Slice(0, n)) *)
@@ -336,7 +343,7 @@ Definition read (sch : list kind) (r : rstate) (dest : frame) : rres * rstate :=
               | DfErr e => (RErr e, set_err r1 e)
               end
         | TokOk _ r1 => (RErr EMalformed, set_err r0 EMalformed)
-        | TokIoEOF =>                                       (* codec.go:151-153: io.EOF -> EOF *)
+        | TokIoEOF =>                                       (* Read: io.EOF -> EOF iff *d.nread == 0 (was: always) *)
             let e := if fix_eof cf then (match rinp r0 with [] => EEOF | _ => EUnexpected end) else EEOF in
             (RErr e, set_err r0 e)
         | t => (RErr (raw_err t), set_err r0 (raw_err t))
